@@ -370,7 +370,8 @@ def write_replay(prop, task, res, rdir):
         return "noinput", path, ""
     u = task.unit
     src = u.src if os.path.isabs(u.src) else os.path.join(VERIF, u.src)
-    L = hdr + ["// counterexample (harness state): " + json.dumps({k: inits[k] for k in inits}),
+    L = hdr + ["// compile-flags: " + "\x1f".join(u.dflags() + u.extra_flags),
+               "// counterexample (harness state): " + json.dumps({k: inits[k] for k in inits}),
                '#include "%s"' % src, "#include <cstdio>", "#include <cstring>", "#include <stdint.h>",
                "#define _Bool bool", "#define VERIF_NATIVE 1"]
     for k, v in {**u.defs, **task.defs}.items():
@@ -461,7 +462,25 @@ def run_check(prop, tier, tasks, units, level, extra_assumptions=(), trusted_bas
         for k in known:
             if k.get("status") == "known" and re.search(k["task_pattern"], r["id"]) and all(any(re.search(op, f["property"]) for op in k["obligation_patterns"]) for f in r["failed"]):
                 kn = k; break
-        if kn: known_hits.append((kn, r)); r["status"] = "known-finding"; r["finding"] = kn["id"]
+        if kn and kn.get("exclude"):
+            # the finding is identified by its failing inputs: re-run the same obligations with exactly those
+            # inputs excluded; whatever is still refuted is a different violation and is reported.
+            import copy
+            t2 = copy.copy(t); t2.id = t.id + "#minus-" + kn["id"]
+            t2.harness_pre = (t.harness_pre or "") + "\n  __CPROVER_assume(%s);" % kn["exclude"]
+            r2 = t2.run(prop)
+            r["rerun_excluding_known_input"] = {"status": r2["status"], "why": r2.get("why"), "obligations": r2["obligations"], "discharged": r2["discharged"]}
+            if r2["status"] in ("proved", "bounded-ok"):
+                known_hits.append((kn, r)); r["status"] = "known-finding"; r["finding"] = kn["id"]
+                r["obligations"] = r2["obligations"]; r["discharged"] = r2["discharged"]
+            elif r2["status"] == "refuted":
+                v2, p2, o2 = write_replay(prop, t2, r2, rdir)
+                r2["replay"] = {"verdict": v2, "path": p2, "output": o2[-1500:]}
+                if v2 in ("violates", "noinput"): r["failed"] = r2["failed"]; r["cex"] = r2.get("cex"); violations.append((r, v2, p2))
+                else: r["status"] = "undecided"; r["why"] = "re-run excluding known finding %s: replay %s" % (kn["id"], v2)
+            else:
+                r["status"] = "undecided"; r["why"] = "re-run excluding known finding %s undecided: %s" % (kn["id"], r2.get("why"))
+        elif kn: known_hits.append((kn, r)); r["status"] = "known-finding"; r["finding"] = kn["id"]
         else: violations.append((r, verdict, path))
     undec = [r for r in results if r["status"] == "undecided"]
     proved = [r for r in results if r["status"] == "proved"]
